@@ -191,6 +191,38 @@ def programs(h: Harness):
                 h.count(f"{name}:ok")
 
 
+def sibling_isolation(h: Harness):
+    """a dependent refinement must read ITS OWN sibling, not a like-named field of a nested
+    concrete child created in between (level A on scripted draws + the Lean predicate)"""
+    C = gram.ClassSpec
+    spec = gram.Spec([
+        C("A0", True, None),
+        C("Anchor", False, None, [("lo", ("ann", "int", ("intRange", 50, 60)))]),
+        C("Window", False, 0, [("lo", ("ann", "int", ("intRange", 0, 3))), ("anchor", ("cls", 1)),
+                               ("hi", ("ann", "int", ("depIntRangeLo", "lo", 9)))]),
+        C("Leaf", False, 0, []),
+        C("Pair", False, 0, [("lo", ("ann", "int", ("intRange", 1, 2))), ("u", ("union", ("cls", 1), ("cls", 3))),
+                             ("xs", ("ann", ("list", "int"), ("depListSize", "lo")))]),
+    ], 0, [2, 3, 4, 1])
+    b = gram.build(spec)
+    g = b.extract()
+    line_spec = gram.spec_sx(spec)
+    rng = h.rng
+    for _ in range(h.n(40, 400)):
+        kind = rng.choice(["grow", "full", "pigrow"])
+        d = rng.choice([2, 3])
+        draws = [rng.randrange(0, 1000) for _ in range(64)]
+        res, v, _ = synth.create(b, kind, d, draws)
+        if res is None:
+            continue
+        h.agree("TreeBasedRepresentation.create_genotype", ["create", line_spec, [kind, d], draws], res)
+        if res[0] == "ok":
+            h.holds("TreeBasedRepresentation.create_genotype", "refinement-violated", ["prop_wt", line_spec, res[1]],
+                    f"dependent refinement not evaluated against the actual sibling: {sx(res[1])[:200]}", [sx(line_spec), kind, d, draws])
+    h.count("sibling-isolation-grammar")
+
+
 def run(h: Harness):
     boxes(h)
+    sibling_isolation(h)
     programs(h)
